@@ -56,7 +56,7 @@ CHECKS.update({
              note="Trusted: vlib.matscan (line scanner of .m and wrapper .cpp, validated on the 11 fixtures), vlib.refmat count rule.", ref="3/C05"),
  'C06': dict(tech="Hypothesis model-based generation + positional-fact oracle: offered arities/type families vs declared overloads with defaults expanded; per branch checkArguments count, unwrap indices/names/primitives, call arguments incl. omitted defaults verbatim, callee, return wrapping and output counts",
              text="Generated-input search over callables (constructors, methods, static methods, free functions), parameter lists, suffix default masks, passing modes (incl. enums) and return shapes; compares scanned structure with the instantiated model, never cosmetic strings.",
-             note="Trusted: vlib.refmat (unwrap_mode / passes_deref rules read from the property statement and DOCS), vlib.matscan. Three golden-pinned defects are open findings (F-12, F-27, F-28) and excluded by construction.", ref="3/C06"),
+             note="Trusted: vlib.refmat (unwrap_mode / passes_deref rules read from the property statement and DOCS), vlib.matscan. Guard families are shape-aware (Vector n x 1, Point2 2 x 1, Point3 3 x 1); a parameter naming one of the module's own instantiations must be guarded by that class's MATLAB name when its arguments are capitalised (otherwise the spelling is open finding F-37); a wrapped enum must name the generated enumeration class. Open findings F-12, F-27, F-28, F-34, F-36, F-37 are excluded by construction and reported from their witnesses.", ref="3/C06"),
  'C10': dict(tech="Hypothesis model-based generation x ignore lists x serialization + oracle: output file set and parsed classdef/enum/MEX-preamble structure == structure computed from the model",
              text="Generated-input search: exact file set with package paths, classdef base/pointer property/constructor/delete/method/static/accessor inventory, enumerator numbering, collectors/clean-up/RTTI in the MEX preamble.",
              note="Trusted: vlib.matscan, vlib.refmat.expected_toolbox. Templated base classes are excluded while F-29 (golden-pinned) is open.", ref="3/C10"),
